@@ -1,0 +1,28 @@
+//go:build verif
+
+package ch
+
+// Contracts for the goblvc verifier (see /verif/DESIGN.md). Comments only.
+//
+// C13 (Switzerland, UID): "E" and nine digits. The first eight digits are weighted
+// 5 4 3 2 7 6 5 4; the ninth is 11 minus the weighted sum modulo 11, 11 reading as 0, and a
+// result of 10 makes the number invalid.
+//@ pin taxCodeMultipliers []int{5, 4, 3, 2, 7, 6, 5, 4}
+//@ global len(taxCodeMultipliers) == 8 && taxCodeMultipliers[0] == 5 && taxCodeMultipliers[1] == 4 && taxCodeMultipliers[2] == 3 && taxCodeMultipliers[3] == 2 && taxCodeMultipliers[4] == 7 && taxCodeMultipliers[5] == 6 && taxCodeMultipliers[6] == 5 && taxCodeMultipliers[7] == 4
+//@ spec chM(i int) int = ite(i == 0, 5, ite(i == 1, 4, ite(i == 2, 3, ite(i == 3, 2, ite(i == 4, 7, ite(i == 5, 6, ite(i == 6, 5, 4)))))))
+//@ rec chSum(val string, n int) int = ite(n <= 0, 0, chSum(val, n - 1) + (s_byte(val, n) - 48) * chM(n - 1))
+//@ spec chR(val string) int = 11 - chSum(val, 8) % 11
+//@ pred chFormat(val string) bool = len(val) == 10 && s_byte(val, 0) == 69 && digitsIn(val, 1, 10)
+//@ pred chValid(val string) bool = chR(val) != 10 && s_byte(val, 9) - 48 == ite(chR(val) == 11, 0, chR(val))
+//
+//@ func commercialCheck(val) (err)
+//@   requires chFormat(val)
+//@   ensures [iff] err == nil <==> chValid(val)
+//@   loop 1 invariant total == real(chSum(val, idx)) && chSum(val, idx) >= 0 && chSum(val, idx) <= 63 * idx
+//
+//@ pin taxCodeRegexps []*regexp.Regexp{regexp.MustCompile(`^E\d{9}$`)}
+//@ global len(taxCodeRegexps) == 1 && taxCodeRegexps[0] != nil && (forall s string :: reMatch(taxCodeRegexps[0], s) <==> chFormat(s))
+//@ func validateTaxCode(value) (err)
+//@   ensures [iff] typeis(value, cbc.Code) && unboxed(value, cbc.Code) != "" ==> (err == nil <==> chFormat(unboxed(value, cbc.Code)) && chValid(unboxed(value, cbc.Code)))
+//@   ensures [skip] !typeis(value, cbc.Code) || unboxed(value, cbc.Code) == "" ==> err == nil
+//@   loop 1 invariant !match && (forall j int :: 0 <= j && j < idx ==> !reMatch(taxCodeRegexps[j], val))
